@@ -27,7 +27,7 @@ func init() { core.Register(sim{}) }
 
 func (sim) Name() string { return "walletsim" }
 func (sim) Props() []string {
-	return []string{"C09", "C15", "C20", "C06", "C16", "C04", "C01", "C03", "C05", "C08", "C13", "C10", "C12"}
+	return []string{"C09", "C15", "C20", "C06", "C16", "C04", "C01", "C03", "C05", "C08", "C13", "C10", "C12", "C02"}
 }
 func (sim) Level(string) string { return "exploration" }
 func (sim) Rule(prop string) string {
@@ -48,6 +48,8 @@ func (sim) Rule(prop string) string {
 		return "C10 (wallet level): the C03/C05/C08 wallet-level workload with a database fault (the k-th mutating call of the next operation, or its commit) in front of account-import previews, imports, NextAccount and address requests; after a fault fired the running wallet must answer as a manager opened on the database, previews of fresh keys must show those keys, and everything that follows in the run is attributed to the failed operation."
 	case "C03", "C05", "C08":
 		return prop + " (wallet level): a case is (addresses on the default scopes, optional receipts, then a mix of account-import previews (ImportAccountDryRun: seven key-version x address-type variants, 1-4 foreign keys), real imports (often into the scope just previewed with another key or format), NextAccount, addresses of own and imported accounts, dry-run sends, renames, wallet lock / account operations while locked / unlock, restarts, blocks, restart observations, private-key checks)."
+	case "C02":
+		return "C02 (wallet level): a case is (the C15 workload — extensions, reorgs, stale and repeated notifications, delivery lag, stop / restart phases while the node moves, backend call failures, a crash at a commit — with wallet-authored spends in the mix); at every point where the wallet has caught up with the node: nothing confirmed in a disconnected block, coinbases of disconnected blocks and their dependants gone, recorded transactions that are still valid kept with their credits, and a fresh store given only the wallet's final facts answers like the wallet's."
 	case "C13":
 		return "C13 (wallet level): a case is (the C06 or the C15 workload); after every operation, with the wallet idle, Wallet.GetTransactions over nine height ranges in both directions is compared with the known set obtained by direct lookup of every transaction the node ever saw or the wallet authored."
 	case "C01":
@@ -96,6 +98,8 @@ func (sim) Explain(prop string, st map[string]int64) string {
 	case "C03", "C05", "C08":
 		probes = []string{"probe.account-import-preview", "probe.preview-while-locked", "probe.account-imported", "probe.import-after-preview", "probe.imported-address-checked",
 			"probe.restart-observations", "probe.next-address-compared", "probe.private-key-checked", "probe.private-access-while-locked"}
+	case "C02":
+		probes = []string{"probe.c02w-checked", "probe.c02w-with-unconfirmed", "probe.c02w-direct-construction-compared", "probe.c02w-compared-with-both-kinds", "probe.reorg-with-wallet-tx", "probe.restart-tip-not-on-chain", "probe.node-moved-while-stopped", "fault.crash-at-commit"}
 	case "C13":
 		probes = []string{"probe.c13w-checked", "probe.c13w-with-unconfirmed", "probe.reorg-with-wallet-tx"}
 	case "C01":
@@ -148,6 +152,8 @@ func (sim) Generate(prop, tier string, seed uint64) *core.Plan {
 		genAcctWFaults(r, p)
 	case "C12":
 		genC12w(r, p)
+	case "C02":
+		genC02w(r, p)
 	}
 	return p
 }
@@ -841,6 +847,9 @@ func (rs *runState) exec(task, step int, op core.Op) {
 		}
 	case "start":
 		if !x.running {
+			if sel := op.Arg(1); sel > 0 && x.prop == "C20" {
+				x.beforeAttach = func() { rs.publishDetached(step, sel-1) }
+			}
 			// is the wallet's remembered tip still on the node's chain?
 			if err := x.reopen(); err != nil {
 				x.fail("restart-failed", "cannot reopen the wallet: %v", err)
@@ -1198,7 +1207,7 @@ func (rs *runState) final() {
 	if x.running {
 		x.harvestFaults()
 	}
-	if x.prop == "C15" && x.running {
+	if (x.prop == "C15" || x.prop == "C02") && x.running {
 		x.syncPoint("final")
 	}
 }
